@@ -11,31 +11,37 @@ CONSTANTS Perms,     \* permission set of the cell under test
           Tok,       \* value tokens; "v0" is the initial value
           Ids,       \* id kinds for list reads: "e1", "e2" readable, "wo" write-only, "missing"
           MaxList, Weak
-VARIABLES val, subscribed, last
-vars == <<val, subscribed, last>>
+VARIABLES val, subscribed, twin, last
+vars == <<val, subscribed, twin, last>>
 Guard(g) == g \notin Weak
 R == "pr" \in Perms
 W == "pw" \in Perms
 E == "ev" \in Perms
 
-Init == val = "v0" /\ subscribed = FALSE /\ last = [a |-> "none", tok |-> "none", ids |-> <<>>, r |-> "none", cb |-> "none", ev |-> 0]
+\* twin: the controller is subscribed to the TWIN of the cell: the characteristic with the same instance id in another
+\* accessory (instance ids are unique per accessory only).  Intended design: a subscription is held per accessory and id
+\* (guard subscription_per_accessory_and_id); without it the twin's subscription counts for the cell too.
+Init == val = "v0" /\ subscribed = FALSE /\ twin = FALSE /\ last = [a |-> "none", tok |-> "none", ids |-> <<>>, r |-> "none", cb |-> "none", ev |-> 0]
 Out(a, tok, ids, r, cb, ev) == last' = [a |-> a, tok |-> tok, ids |-> ids, r |-> r, cb |-> cb, ev |-> ev]
 
-LocalSet(t)    == /\ val' = t /\ Out("LocalSet", t, <<>>, "ok", "none", IF subscribed /\ t # val THEN 1 ELSE 0) /\ UNCHANGED subscribed
+Listening      == subscribed \/ (twin /\ ~Guard("subscription_per_accessory_and_id"))
+LocalSet(t)    == /\ val' = t /\ Out("LocalSet", t, <<>>, "ok", "none", IF Listening /\ t # val THEN 1 ELSE 0) /\ UNCHANGED <<subscribed, twin>>
+SubTwin        == /\ twin' = TRUE /\ Out("SubTwin", "none", <<>>, "ok", "none", 0) /\ UNCHANGED <<val, subscribed>>
+UnsubTwin      == /\ twin' = FALSE /\ Out("UnsubTwin", "none", <<>>, "ok", "none", 0) /\ UNCHANGED <<val, subscribed>>
 RemoteWrite(t) == /\ IF W \/ ~Guard("write_needs_pw")
                      THEN val' = t /\ Out("RemoteWrite", t, <<>>, "ok", IF t # val THEN t ELSE "none", 0)
                      ELSE UNCHANGED val /\ Out("RemoteWrite", t, <<>>, "ignored", "none", 0)
-                  /\ UNCHANGED subscribed
-RemoteRead     == /\ Out("RemoteRead", "none", <<>>, IF R THEN val ELSE "status", "none", 0) /\ UNCHANGED <<val, subscribed>>
+                  /\ UNCHANGED <<subscribed, twin>>
+RemoteRead     == /\ Out("RemoteRead", "none", <<>>, IF R THEN val ELSE "status", "none", 0) /\ UNCHANGED <<val, subscribed, twin>>
 \* the application supplies the value through an installed getter (OnValueGet): the read returns it and it is the stored
 \* value from then on (characteristic.go:109-114); a cell without read permission is not asked
 GetterRead(t)  == /\ IF R THEN val' = t /\ Out("GetterRead", t, <<>>, t, "none", 0)
                           ELSE UNCHANGED val /\ Out("GetterRead", t, <<>>, "status", "none", 0)
-                  /\ UNCHANGED subscribed
-AccRead        == /\ Out("AccRead", "none", <<>>, IF R THEN val ELSE "novalue", "none", 0) /\ UNCHANGED <<val, subscribed>>
+                  /\ UNCHANGED <<subscribed, twin>>
+AccRead        == /\ Out("AccRead", "none", <<>>, IF R THEN val ELSE "novalue", "none", 0) /\ UNCHANGED <<val, subscribed, twin>>
 Sub            == /\ subscribed' = (E \/ ~Guard("subscribe_needs_ev"))
-                  /\ Out("Sub", "none", <<>>, IF subscribed' THEN "ok" ELSE "status", "none", 0) /\ UNCHANGED val
-Unsub          == /\ subscribed' = FALSE /\ Out("Unsub", "none", <<>>, "ok", "none", 0) /\ UNCHANGED val
+                  /\ Out("Sub", "none", <<>>, IF subscribed' THEN "ok" ELSE "status", "none", 0) /\ UNCHANGED <<val, twin>>
+Unsub          == /\ subscribed' = FALSE /\ Out("Unsub", "none", <<>>, "ok", "none", 0) /\ UNCHANGED <<val, twin>>
 
 \* response shape of a list read: one entry per id, in order; 200 iff all found and readable, else 207 with a status everywhere
 Found(k) == k # "missing"
@@ -44,11 +50,11 @@ Shape(ids) == [http |-> IF \A i \in 1..Len(ids) : EntryOK(ids[i]) THEN 200 ELSE 
                entries |-> [i \in 1..Len(ids) |-> [id |-> ids[i], value |-> EntryOK(ids[i]),
                                                    status |-> IF \A j \in 1..Len(ids) : EntryOK(ids[j]) THEN FALSE
                                                               ELSE (Guard("status_in_every_entry") \/ ~EntryOK(ids[i]))]]]
-ReadList(ids)  == /\ Out("ReadList", "none", ids, "shape", "none", 0) /\ UNCHANGED <<val, subscribed>>
+ReadList(ids)  == /\ Out("ReadList", "none", ids, "shape", "none", 0) /\ UNCHANGED <<val, subscribed, twin>>
 
 Lists == UNION {[1..n -> Ids] : n \in 1..MaxList}
 Next == \/ \E t \in Tok : LocalSet(t) \/ RemoteWrite(t) \/ GetterRead(t)
-        \/ RemoteRead \/ AccRead \/ Sub \/ Unsub
+        \/ RemoteRead \/ AccRead \/ Sub \/ Unsub \/ SubTwin \/ UnsubTwin
         \/ \E ids \in Lists : ReadList(ids)
 Spec == Init /\ [][Next]_vars
 
@@ -56,7 +62,7 @@ Spec == Init /\ [][Next]_vars
 ReadsSeeLastWrite == last.a \in {"RemoteRead", "AccRead", "GetterRead"} /\ R => last.r = val
 NoWriteWithoutPw == [][ (last'.a = "RemoteWrite" /\ ~W) => (val' = val /\ last'.cb = "none") ]_vars
 NoValueWithoutPr == last.a \in {"RemoteRead", "AccRead", "GetterRead"} /\ ~R => last.r \in {"status", "novalue"}
-NoEventsWithoutEv == ~E => ~subscribed
+NoEventsWithoutEv == ~E => (~subscribed /\ (last.a = "LocalSet" => last.ev = 0))
 ShapeOK(ids) == LET s == Shape(ids) IN
                   /\ Len(s.entries) = Len(ids)
                   /\ \A i \in 1..Len(ids) : /\ s.entries[i].id = ids[i]
@@ -65,5 +71,5 @@ ShapeOK(ids) == LET s == Shape(ids) IN
                   /\ (s.http = 207 => \A i \in 1..Len(ids) : s.entries[i].status)             \* multi-status: a status everywhere
                   /\ (s.http = 200 <=> \A i \in 1..Len(ids) : EntryOK(ids[i]))
 ShapeRule == last.a = "ReadList" => ShapeOK(last.ids)
-View == <<val, subscribed>>
+View == <<val, subscribed, twin>>
 =======================================================================
